@@ -732,3 +732,228 @@ package reftable
 //@   loop 1 invariant rangeindex == -1 ==> last == nil
 //@   loop 1 invariant forall i int :: 1 <= i && i <= rangeindex ==> tabMax(tabs[i-1]) < tabMin(tabs[i])
 //@   loop 1 invariant forall i int :: 0 <= i && i <= rangeindex ==> tabHash(tabs[i]) == hashID && tabs[i] != nil
+
+// =============================================================================================
+// stack.go: the directory protocol (C04 C05 C06 C08 C09 C10 C16)
+//
+// Ghost model of the shared directory, as seen from one handle (DESIGN.md section 3):
+//   theListFile, theDir   the paths of tables.list and of the directory (never modified)
+//   held[p]               this handle created lock path p with O_EXCL and has not removed or renamed it
+//   ownsTmp[p]            this handle created temp file p and has not removed or renamed it
+//   fileOf[f]             the path behind *os.File f
+//   listNames/listLen     the names currently in tables.list (the committed state). Other handles may change it at
+//                         any filesystem operation unless this handle holds tables.list.lock (rely, section 3.2)
+//   wNames/wLen[p]        the name list written to file p (through strings.Join / File.Write)
+//   tblExists[p]          p is a complete table file that this handle put in place or saw listed
+// No-I/O-fault model: the filesystem calls fail only with EEXIST (O_EXCL create) or ENOENT (open of a missing file).
+// =============================================================================================
+
+//@ ghost theListFile string
+//@ ghost theDir string
+//@ ghost held map[string]bool
+//@ ghost ownsTmp map[string]bool
+//@ ghost fileOf map[ref]string
+//@ ghost listNames map[int]string
+//@ ghost listLen int
+//@ ghost wNames map[string]map[int]string
+//@ ghost wLen map[string]int
+
+//@ spec isLock(p string) bool
+//@ spec pathJoin(d string, n string) string
+//@ spec jn(s string) map[int]string
+//@ spec jl(s string) int
+//@ axiom isLockSuffix: forall x string :: isLock(x + ".lock")
+//@ axiom notLockRef: forall x string :: !isLock(x + ".ref")
+//@ axiom isLockJoin: forall d string, n string :: isLock(pathJoin(d, n)) == isLock(n)
+//@ axiom listFileIsNoTable: forall d string, x string :: pathJoin(d, x + ".ref") != theListFile
+//@ axiom listFileIsNoLock: !isLock(theListFile)
+
+//@ spec listLock() string = theListFile + ".lock"
+//@ spec listStable() bool = listLen >= 0 && (old(held[listLock()]) ==> (listLen == old(listLen) && listNames == old(listNames)))
+//@ axiom jlNonNeg: forall s string :: jl(s) >= 0
+
+// G1 (C08): a lock path is removed or renamed only by the handle that created it.
+// G2 (C04, C05, C09): tables.list is replaced only from this handle's own lock file, and only by a list that extends
+// the current list with new tables or replaces one contiguous range of it by at most one table.
+//@ spec goodCommit(from string) bool = held[from] && from == listLock() && (isAppendOf(from) || isReplaceOf(from))
+//@ spec isAppendOf(from string) bool = wLen[from] > listLen && (forall i int :: 0 <= i && i < listLen ==> wNames[from][i] == listNames[i])
+//@ spec isReplaceOf(from string) bool = exists a int, b int, k int :: 0 <= a && a <= b && b < listLen && (k == 0 || k == 1) && wLen[from] == listLen - (b - a + 1) + k && (forall i int :: 0 <= i && i < a ==> wNames[from][i] == listNames[i]) && (forall i int :: a + k <= i && i < wLen[from] ==> wNames[from][i] == listNames[i + (b - a + 1) - k])
+
+//@ extern os.OpenFile
+//@   params name, flag, perm
+//@   requires flag == 193 && isLock(name)
+//@   modifies held, fileOf, listNames, listLen
+//@   ensures result1 == nil ==> result0 != nil && fresh(result0) && !old(held[name]) && held[name] && fileOf[result0] == name
+//@   ensures result1 != nil ==> result0 == nil && isExist(result1) && held[name] == old(held[name])
+//@   ensures forall p string :: p != name ==> held[p] == old(held[p])
+//@   ensures forall f ref :: allocated(f) ==> fileOf[f] == old(fileOf[f])
+//@   ensures listStable()
+
+//@ extern os.Remove
+//@   params name
+//@   requires[G1] isLock(name) ==> held[name]
+//@   modifies held, ownsTmp, listNames, listLen
+//@   ensures !held[name] && !ownsTmp[name]
+//@   ensures forall p string :: p != name ==> held[p] == old(held[p]) && ownsTmp[p] == old(ownsTmp[p])
+//@   ensures listStable()
+
+//@ extern os.Rename
+//@   params oldpath, newpath
+//@   requires[G1] isLock(oldpath) ==> held[oldpath]
+//@   requires[G2] newpath == theListFile ==> goodCommit(oldpath)
+//@   modifies held, ownsTmp, listNames, listLen
+//@   ensures result == nil
+//@   ensures !held[oldpath] && !ownsTmp[oldpath]
+//@   ensures forall p string :: p != oldpath ==> held[p] == old(held[p]) && ownsTmp[p] == old(ownsTmp[p])
+//@   ensures newpath == theListFile ==> listLen == old(wLen[oldpath]) && listNames == old(wNames[oldpath])
+//@   ensures newpath != theListFile ==> listStable()
+
+//@ extern io/ioutil.TempFile
+//@   params dir, pattern
+//@   modifies ownsTmp, fileOf, listNames, listLen
+//@   ensures result1 == nil && result0 != nil && fresh(result0) && ownsTmp[fileOf[result0]] && !old(ownsTmp[fileOf[result0]]) && !isLock(fileOf[result0]) && fileOf[result0] != theListFile
+//@   ensures forall p string :: p != fileOf[result0] ==> ownsTmp[p] == old(ownsTmp[p])
+//@   ensures forall f ref :: allocated(f) ==> fileOf[f] == old(fileOf[f])
+//@   ensures listStable()
+
+//@ extern (*os.File).Name
+//@   params f
+//@   pure
+//@   ensures result == fileOf[f]
+
+//@ extern (*os.File).Close
+//@   params f
+//@   pure
+
+//@ extern (*os.File).Write
+//@   params f, b
+//@   modifies wNames, wLen
+//@   ensures result1 == nil
+//@   ensures wLen[fileOf[f]] == jl(asStr(b)) && wNames[fileOf[f]] == jn(asStr(b))
+//@   ensures forall p string :: p != fileOf[f] ==> wLen[p] == old(wLen[p]) && wNames[p] == old(wNames[p])
+
+//@ extern strings.Join
+//@   params elems, sep
+//@   pure
+//@   ensures jl(result) == len(elems) && (forall i int :: 0 <= i && i < len(elems) ==> jn(result)[i] == elems[i])
+
+//@ extern path/filepath.Join
+//@   params elem
+//@   pure
+//@   ensures len(elem) == 2 ==> result == pathJoin(elem[0], elem[1])
+
+//@ spec heldWf() bool = listLen >= 0 && (forall p string :: held[p] ==> isLock(p))
+//@ spec wfStack(st *Stack) bool = heldWf() && st != nil && st.listFile == theListFile && st.reftableDir == theDir && (forall i int :: 0 <= i && i < len(st.stack) ==> st.stack[i] != nil && !isLock(st.stack[i].name))
+//@ spec namesMatch(st *Stack) bool = len(st.stack) == listLen && (forall i int :: 0 <= i && i < len(st.stack) ==> st.stack[i].name == listNames[i])
+
+// trusted: parses tables.list (ioutil.ReadFile + bytes.Split); one atomic read of one version of the list.
+// Assumption: no name in tables.list ends in ".lock".
+//@ func (*Stack).readNames
+//@   trusted
+//@   modifies listNames, listLen
+//@   ensures listStable()
+//@   ensures result1 == nil ==> len(result0) == listLen && (forall i int :: 0 <= i && i < listLen ==> result0[i] == listNames[i] && !isLock(result0[i]))
+//@   ensures result0 == nil || fresh(result0)
+
+// C09: up to date means exactly the same names, in the same order, as tables.list.
+//@ func (*Stack).UpToDate
+//@   props C09 C04
+//@   requires wfStack(st)
+//@   modifies listNames, listLen
+//@   ensures listStable()
+//@   ensures[exact] result0 && result1 == nil ==> namesMatch(st)
+//@   ensures[complete] !result0 && result1 == nil ==> !namesMatch(st)
+//@   loop 1 invariant -1 <= rangeindex && rangeindex < len(st.stack) && len(names) == len(st.stack) && (forall i int :: 0 <= i && i <= rangeindex ==> st.stack[i].name == names[i])
+
+//@ ghost appends int
+
+// The invariant of an open transaction (C04 clause 4, C08, C09): while it names a lock file it holds that lock, its
+// view of tables.list is the current one, and its name list is that list followed by its own new tables.
+//@ spec addInv(tr *Addition) bool = tr != nil && tr.stack != nil && wfStack(tr.stack) && (ref(tr.names) != ref(tr.newTables) || ref(tr.names) == 0) && (forall j int :: 0 <= j && j < len(tr.newTables) ==> !isLock(tr.newTables[j])) && (tr.lockFileName != "" ==> tr.lockFileName == listLock() && held[listLock()] && tr.lockFile != nil && fileOf[tr.lockFile] == tr.lockFileName && namesPrefix(tr))
+//@ spec namesPrefix(tr *Addition) bool = len(tr.names) == listLen + len(tr.newTables) && (forall i int :: 0 <= i && i < listLen ==> tr.names[i] == listNames[i]) && (forall j int :: 0 <= j && j < len(tr.newTables) ==> tr.names[listLen + j] == tr.newTables[j])
+//@ spec heldSame() bool = forall p string :: held[p] == old(held[p])
+//@ spec heldSubset() bool = forall p string :: held[p] ==> old(held[p])
+//@ spec tmpSubset() bool = forall p string :: ownsTmp[p] ==> old(ownsTmp[p])
+//@ spec closeInv(tr *Addition) bool = tr != nil && tr.stack != nil && wfStack(tr.stack) && (forall j int :: 0 <= j && j < len(tr.newTables) ==> !isLock(tr.newTables[j])) && (tr.lockFileName != "" ==> held[tr.lockFileName])
+
+// trusted for now (time, retries, maps): refined under C10
+//@ func (*Stack).reload
+//@   trusted
+//@   requires wfStack(st)
+//@   modifies st.stack, st.merged, listNames, listLen, buflen, bufdata
+//@   ensures wfStack(st) && listStable()
+//@   ensures result == nil ==> (old(held[listLock()]) ==> namesMatch(st))
+
+//@ func (*Stack).NextUpdateIndex
+//@   props C09
+//@   requires wfStack(st)
+//@   pure
+
+//@ func (*Stack).NewAddition
+//@   props C04 C08 C09 C16
+//@   requires wfStack(st)
+//@   modifies held, fileOf, ownsTmp, listNames, listLen
+//@   ensures[open] result1 == nil ==> result0 != nil && fresh(result0) && addInv(result0) && result0.lockFileName != "" && len(result0.newTables) == 0 && result0.stack == st && namesMatch(st)
+//@   ensures[lock-taken] result1 == nil ==> !old(held[listLock()]) && (forall p string :: p != listLock() ==> held[p] == old(held[p]))
+//@   ensures[no-leak] result1 != nil ==> heldSame() && result0 == nil
+//@   ensures tmpSubset()
+//@   loop 1 invariant[a] -1 <= rangeindex && rangeindex < len(st.stack) && len(tr.names) == rangeindex + 1 && (tr.names == nil || fresh(tr.names))
+//@   loop 1 invariant[b] forall i int :: 0 <= i && i <= rangeindex ==> tr.names[i] == st.stack[i].name
+//@   loop 1 invariant[c] tr.lockFileName == listLock() && tr.stack == st && tr.lockFile != nil && fileOf[tr.lockFile] == tr.lockFileName && len(tr.newTables) == 0
+
+// C08/C16: Close releases the lock only if the transaction still holds it, and leaves nothing held.
+//@ func (*Addition).Close
+//@   props C08 C16 C04
+//@   requires closeInv(tr)
+//@   modifies held, ownsTmp, listNames, listLen, tr.lockFile, tr.lockFileName
+//@   ensures tr.lockFileName == "" && tr.lockFile == nil && wfStack(tr.stack)
+//@   ensures[released] old(tr.lockFileName) != "" ==> (forall p string :: held[p] == (old(held[p]) && p != old(tr.lockFileName)))
+//@   ensures[nothing-to-release] old(tr.lockFileName) == "" ==> heldSame()
+//@   ensures tmpSubset()
+//@   loop 1 invariant -1 <= rangeindex && closeInv(tr) && tr.lockFileName == old(tr.lockFileName) && tr.lockFile == old(tr.lockFile) && tr.newTables == old(tr.newTables) && tr.stack == old(tr.stack) && heldSame() && tmpSubset()
+
+// trusted: fmt.Sprintf + a random suffix. Assumption: fresh table names are unique (32 random bits).
+//@ func formatName
+//@   trusted
+//@   pure
+//@   ensures !isLock(result)
+
+//@ func NewWriter
+//@   props C16
+//@   requires cfg != nil
+//@   modifies nothing
+//@   ensures result1 == nil ==> result0 != nil && fresh(result0)
+//@   ensures result1 != nil ==> result0 == nil
+
+// coarse protocol-level contract (the format clauses are under C14)
+//@ func (*Writer).Close
+//@   trusted
+//@   modifies anyof(*Writer), anyof(*blockWriter), anyof(*paddedWriter)
+
+// Assumption about the caller-supplied transaction function: it writes only to the Writer it is given (and fresh memory).
+//@ callback (*Addition).Add#write
+//@   params w
+//@   modifies anyof(*Writer), anyof(*blockWriter), anyof(*paddedWriter)
+
+// coarse: opens and scans the new table (read-only on the directory)
+//@ func (*Stack).checkAddition
+//@   trusted
+//@   modifies buflen, bufdata, listNames, listLen
+//@   ensures listStable()
+
+// C04/C05/C16: a table is added to the transaction only after it has been written, closed, checked and renamed into
+// place; nothing temporary survives the call; the transaction invariant is kept.
+//@ func (*Addition).Add
+//@   props C04 C05 C16 C08
+//@   requires addInv(tr) && tr.lockFileName != ""
+//@   modifies held, ownsTmp, fileOf, listNames, listLen, buflen, bufdata, tr.names, tr.names[:cap(tr.names)], tr.newTables, tr.newTables[:cap(tr.newTables)], tr.nextUpdateIndex, anyof(*Writer), anyof(*blockWriter), anyof(*paddedWriter)
+//@   ensures[inv-a] tr != nil && tr.stack == old(tr.stack) && wfStack(tr.stack) && tr.lockFileName == old(tr.lockFileName) && tr.lockFile == old(tr.lockFile)
+//@   ensures[inv-b] forall j int :: 0 <= j && j < len(tr.newTables) ==> !isLock(tr.newTables[j])
+//@   ensures[inv-sep] ref(tr.names) != ref(tr.newTables) || ref(tr.names) == 0
+//@   ensures[inv-c1] len(tr.names) == listLen + len(tr.newTables)
+//@   ensures[inv-c2] forall i int :: 0 <= i && i < listLen ==> tr.names[i] == listNames[i]
+//@   ensures[inv-c3] forall j int :: 0 <= j && j < len(tr.newTables) ==> tr.names[listLen + j] == tr.newTables[j]
+//@   ensures[inv] addInv(tr) && tr.lockFileName != ""
+//@   ensures[no-temp-left] tmpSubset()
+//@   ensures[locks] heldSame()
+//@   ensures[failed-adds-nothing] result != nil ==> len(tr.newTables) == old(len(tr.newTables))
